@@ -50,7 +50,7 @@ def var_heuristics(ctx, corr, viol):
 
 
 def run(ctx):
-    corr, viol = standard_run(ctx, "C04", {"term", "crash"}, 600, 10000,
+    corr, viol = standard_run(ctx, "C04", {"term", "crash"}, 600, 30000,
                               ["two_no_sub_cycle_livelock", "optimize_unwatched_objective", "max_regret_ties"])
     var_heuristics(ctx, corr, viol)
     # every single filtering call returns (per-propagator termination: `Safe`, `C04_port_alldifferent`, `C04_port_gcc`):
